@@ -23,6 +23,14 @@ Qed.
 Lemma filter_len_le {A} (f : A -> bool) l : length (filter f l) <= length l.
 Proof. induction l as [|x l IH]; simpl; [lia|]. destruct (f x); simpl; lia. Qed.
 
+Lemma Forall2_map_self {A B} (f : A -> B) (P : B -> A -> Prop) l :
+  (forall x, In x l -> P (f x) x) -> Forall2 P (map f l) l.
+Proof.
+  induction l as [|x l IH]; intro H; simpl; constructor.
+  - apply H. left. reflexivity.
+  - apply IH. intros y Hy. apply H. right. exact Hy.
+Qed.
+
 Definition opt_row (h : nat -> option nat) (l : list nat) : list (nat * nat) :=
   flat_map (fun a => match h a with Some v => [(a, v)] | None => [] end) l.
 
@@ -572,6 +580,33 @@ Section Quotient.
     intros Hq Hd. unfold dfa_acc_from. rewrite (sim w q Hq Hd). apply fin_proj. apply inQ_run. apply inQ_Some. exact Hq.
   Qed.
 
+  (* retained names: the blocks are the classes of the kept, non-omitted states *)
+  Lemma qblocks_heads : Forall2 (fun B r => In r B) (qblocks m K c) qst.
+  Proof.
+    unfold qblocks. apply Forall2_map_self. intros r Hr. apply qstates_In in Hr. destruct Hr as [HrK [Hd Hn]].
+    apply filter_In. split; [|apply Nat.eqb_eq; exact Hn].
+    unfold live. apply filter_In. split; [exact HrK|]. rewrite Hd. reflexivity.
+  Qed.
+
+  Lemma qblocks_classes B q1 : In B (qblocks m K c) -> In q1 B ->
+    forall q2, In q2 B <-> (In q2 K /\ forall w, dfa_acc_from m (Some q1) w = dfa_acc_from m (Some q2) w).
+  Proof.
+    intros HB H1 q2. unfold qblocks in HB. apply in_map_iff in HB. destruct HB as [r [<- Hr]].
+    apply filter_In in H1. destruct H1 as [L1 N1]. apply Nat.eqb_eq in N1.
+    unfold live in L1. apply filter_In in L1. destruct L1 as [K1 D1]. apply negb_true_iff in D1.
+    assert (Hequiv : forall q, In q K -> (c (Some q1) = c (Some q) <->
+               forall w, dfa_acc_from m (Some q1) w = dfa_acc_from m (Some q) w)).
+    { intros q Hq. rewrite (nerode _ _ (inQ_Some _ K1) (inQ_Some _ Hq)). split; intros H w.
+      - rewrite <- (kacc m K HK w q1 K1), <- (kacc m K HK w q Hq). apply H.
+      - rewrite (kacc m K HK w q1 K1), (kacc m K HK w q Hq). apply H. }
+    rewrite filter_In. unfold live. rewrite filter_In, negb_true_iff, Nat.eqb_eq. split.
+    - intros [[K2 D2] N2]. split; [exact K2|]. apply (Hequiv q2 K2).
+      destruct (cname_in q1 K1) as [_ C1]. destruct (cname_in q2 K2) as [_ C2]. rewrite <- C1, <- C2, N1, N2. reflexivity.
+    - intros [K2 Hw]. apply (Hequiv q2 K2) in Hw. split; [split; [exact K2|]|].
+      + rewrite <- (dr_class _ _ Hw). exact D1.
+      + rewrite <- N1. symmetry. apply cname_class; assumption.
+  Qed.
+
   Hypothesis init_live : dr (Some (d_init m)) = false.
 
   Lemma qR_lang w : dfa_acc qR w = dfa_acc m w.
@@ -615,6 +650,14 @@ Section Quotient.
       simpl. apply nm_in_qstates; [exact Hq|apply final_not_dropped; assumption].
   Qed.
 
+  Lemma qR_complete_flag : need = false -> d_partial qR = false.
+  Proof.
+    intro Hn. simpl. unfold qpartial. apply negb_false_iff. apply forallb_forall. intros r Hr.
+    apply Nat.eqb_eq. rewrite qrow_opt. apply opt_row_full_conv. intros a Ha.
+    apply qstates_In in Hr. destruct (need_false r a Hn (proj1 Hr) Ha) as [t [Et _]].
+    unfold qtarget. rewrite Et. unfold dropped. rewrite Hn. simpl. discriminate.
+  Qed.
+
   Lemma qR_struct : min_struct qR.
   Proof.
     constructor.
@@ -644,3 +687,300 @@ Section Quotient.
       apply memb_In in Ha. rewrite Ha, Hn in Hq'. discriminate.
   Qed.
 End Quotient.
+
+(* ---------- putting the refinement and the quotient together ---------- *)
+Section Core.
+  Variable m : dfa.
+  Hypothesis Hv : valid_dfa m = true.
+  Variable K : list nat.
+  Hypothesis HK : goodK m K.
+
+  Lemma quotient_eq c : quotient m K c =
+    match qstates m K c with
+    | [] => Ok (empty_language (d_syms m), [])
+    | _ :: _ => if dropped m K c (Some (d_init m)) then Err KeyErr else Ok (qR m K c, qblocks m K c)
+    end.
+  Proof. reflexivity. Qed.
+
+  Lemma K_nonempty : 1 <= length K.
+  Proof. pose proof (gk_init m K HK) as H. destruct K; [destruct H|simpl; lia]. Qed.
+
+  Lemma K_length : length K <= size m.
+  Proof.
+    apply NoDup_incl_length; [apply ssorted_NoDup; apply (gk_sorted m K HK)|apply (gk_states m K HK)].
+  Qed.
+
+  Theorem minify_core_ok : exists R P, minify_core m K = Ok (R, P) /\
+    valid_dfa R = true /\ d_syms R = d_syms m /\ (forall w, dfa_acc R w = dfa_acc m w) /\
+    min_struct R /\ size R <= length K /\ (trap_needed m K = false -> d_partial R = false) /\
+    (P <> [] -> Forall2 (fun B r => In r B) P (d_states R) /\
+       forall B q1, In B P -> In q1 B -> forall q2, In q2 B <->
+         (In q2 K /\ forall w, dfa_acc_from m (Some q1) w = dfa_acc_from m (Some q2) w)).
+  Proof.
+    destruct (moore_nerode (option nat) (eqb_opt Nat.eqb) (eqb_opt_ok _ eqb_nat_ok) (kstep m K) (ofinal m)
+                (d_syms m) (kQ K) (kQ_closed m K) (kstep_foreign m Hv K)) as [t [E [Hn Hd]]].
+    unfold minify_core, kmoore. rewrite E. set (c := look (eqb_opt Nat.eqb) t) in *.
+    assert (Hinit : In (d_init m) K) by apply (gk_init m K HK).
+    rewrite quotient_eq. destruct (qstates m K c) as [|r0 rest] eqn:Eq.
+    - exists (empty_language (d_syms m)), []. split; [reflexivity|].
+      split; [apply empty_language_valid; apply (syms_NoDup m Hv)|]. split; [reflexivity|].
+      split; [|split; [apply empty_language_struct|split; [simpl; apply K_nonempty|split; [reflexivity|intro H; contradiction H; reflexivity]]]].
+      intro w. rewrite empty_language_acc. symmetry.
+      destruct (dropped m K c (Some (d_init m))) eqn:Ed.
+      + unfold dfa_acc. rewrite <- (kacc m K HK w _ Hinit).
+        eapply dr_fin; [exact Hn|apply inQ_Some; exact Hinit|exact Ed].
+      + assert (H : In (cname K c (d_init m)) (qstates m K c)) by (eapply nm_in_qstates; eassumption).
+        rewrite Eq in H. destruct H.
+    - destruct (dropped m K c (Some (d_init m))) eqn:Ed.
+      + exfalso.
+        assert (Hr0 : In r0 (qstates m K c)) by (rewrite Eq; left; reflexivity).
+        apply qstates_In in Hr0. destruct Hr0 as [HrK [Hdr _]].
+        destruct (gk_access m K HK r0 HrK) as [u Hu].
+        assert (H : dropped m K c (xrun (option nat) (kstep m K) (Some (d_init m)) u) = true).
+        { eapply dr_run; [exact Hn|apply inQ_Some; exact Hinit|exact Ed]. }
+        rewrite Hu in H. congruence.
+      + exists (qR m K c), (qblocks m K c). split; [reflexivity|].
+        split; [eapply qR_valid; eassumption|]. split; [reflexivity|].
+        split; [intro w; eapply qR_lang; eassumption|].
+        split; [eapply qR_struct; eassumption|].
+        split; [apply (qstates_length m K c)|].
+        split; [intro Hneed; eapply qR_complete_flag; eassumption|].
+        intros _. split; [apply (qblocks_heads m K c)|].
+        intros B q1 HB H1 q2. eapply qblocks_classes; eassumption.
+  Qed.
+End Core.
+
+(* ---------- the Myhill-Nerode lower bound for the DFA record ---------- *)
+Section LowerBound.
+  Variables A B : dfa.
+  Hypothesis HvA : valid_dfa A = true.
+  Hypothesis HvB : valid_dfa B = true.
+  Hypothesis Hlang : L_dfa B =L L_dfa A.
+  Hypothesis Hacc : forall r, In r (d_states A) -> exists u, dfa_run A (Some (d_init A)) u = Some r.
+  Hypothesis Hdist : forall r1 r2, In r1 (d_states A) -> In r2 (d_states A) -> r1 <> r2 ->
+    exists w, dfa_acc_from A (Some r1) w <> dfa_acc_from A (Some r2) w.
+
+  Definition img (u : word) : option nat := dfa_run B (Some (d_init B)) u.
+
+  Lemma acc_eq w : dfa_acc B w = dfa_acc A w.
+  Proof. apply eq_iff_eq_true. apply Hlang. Qed.
+
+  Lemma after_access u r w : dfa_run A (Some (d_init A)) u = Some r ->
+    dfa_acc_from A (Some r) w = dfa_acc_from B (img u) w.
+  Proof.
+    intro Hu. unfold img.
+    assert (H1 : dfa_acc A (u ++ w) = dfa_acc_from A (Some r) w).
+    { unfold dfa_acc, dfa_acc_from. rewrite dfa_run_app, Hu. reflexivity. }
+    assert (H2 : dfa_acc B (u ++ w) = dfa_acc_from B (dfa_run B (Some (d_init B)) u) w).
+    { unfold dfa_acc, dfa_acc_from. rewrite dfa_run_app. reflexivity. }
+    rewrite <- H1, <- H2. symmetry. apply acc_eq.
+  Qed.
+
+  Lemma img_inj u1 u2 r1 r2 : In r1 (d_states A) -> In r2 (d_states A) ->
+    dfa_run A (Some (d_init A)) u1 = Some r1 -> dfa_run A (Some (d_init A)) u2 = Some r2 ->
+    img u1 = img u2 -> r1 = r2.
+  Proof.
+    intros H1 H2 U1 U2 E. destruct (Nat.eq_dec r1 r2) as [Eq|N]; [exact Eq|exfalso].
+    destruct (Hdist r1 r2 H1 H2 N) as [w Hw]. apply Hw.
+    rewrite (after_access u1 r1 w U1), (after_access u2 r2 w U2), E. reflexivity.
+  Qed.
+
+  Lemma img_in_states u q : img u = Some q -> In q (d_states B).
+  Proof.
+    intro H. pose proof (dfa_run_ok B HvB u (Some (d_init B)) (init_ok B HvB)) as Ho.
+    unfold img in H. rewrite H in Ho. exact Ho.
+  Qed.
+
+  Lemma inj_list l : NoDup l -> incl l (d_states A) ->
+    (forall r u, In r l -> dfa_run A (Some (d_init A)) u = Some r -> img u <> None) ->
+    exists l', NoDup l' /\ incl l' (d_states B) /\ length l' = length l /\
+      forall q', In q' l' -> exists r u, In r l /\ dfa_run A (Some (d_init A)) u = Some r /\ img u = Some q'.
+  Proof.
+    induction l as [|r0 l IH]; intros Hnd Hinc Himg.
+    - exists []. split; [constructor|]. split; [intros x []|]. split; [reflexivity|]. intros q' [].
+    - inversion Hnd as [|? ? Hnot Hnd']; subst.
+      destruct IH as [l' [N' [I' [L' W']]]]; [exact Hnd'|intros x Hx; apply Hinc; right; exact Hx| |].
+      { intros r u Hr. apply Himg. right. exact Hr. }
+      assert (Hr0 : In r0 (d_states A)) by (apply Hinc; left; reflexivity).
+      destruct (Hacc r0 Hr0) as [u0 Hu0].
+      destruct (img u0) as [q0|] eqn:E0; [|exfalso; apply (Himg r0 u0 (or_introl eq_refl) Hu0); exact E0].
+      exists (q0 :: l'). split.
+      + constructor; [|exact N']. intro Hin. destruct (W' q0 Hin) as [r [u [Hr [Hu Hi]]]].
+        assert (r = r0).
+        { apply (img_inj u u0 r r0); [apply Hinc; right; exact Hr|exact Hr0|exact Hu|exact Hu0|congruence]. }
+        subst r. contradiction.
+      + split; [intros x [<-|Hx]; [eapply img_in_states; exact E0|apply I'; exact Hx]|].
+        split; [simpl; rewrite L'; reflexivity|].
+        intros q' [<-|Hq'].
+        * exists r0, u0. split; [left; reflexivity|]. split; assumption.
+        * destruct (W' q' Hq') as [r [u [Hr H]]]. exists r, u. split; [right; exact Hr|exact H].
+  Qed.
+
+  Theorem lower_bound_gen :
+    (forall r u, In r (d_states A) -> dfa_run A (Some (d_init A)) u = Some r -> img u <> None) ->
+    size A <= size B.
+  Proof.
+    intro Himg. destruct (valid_dfa_parts A HvA) as (Hnd & _).
+    destruct (inj_list (d_states A) Hnd (incl_refl _) Himg) as [l' [N' [I' [L' _]]]].
+    unfold size. rewrite <- L'. apply NoDup_incl_length; assumption.
+  Qed.
+
+  (* a run that survives reads only alphabet symbols *)
+  Lemma run_Some_syms u : forall q r, dfa_run A (Some q) u = Some r -> Forall (fun a => In a (d_syms A)) u.
+  Proof.
+    induction u as [|a u IH]; intros q r H; [constructor|]. simpl in H.
+    destruct (d_delta A q a) as [t|] eqn:E; [|rewrite dfa_run_None in H; discriminate].
+    constructor; [apply (delta_in_states A HvA) in E; tauto|eapply IH; exact H].
+  Qed.
+
+  Lemma complete_run u : complete B -> d_syms B = d_syms A -> Forall (fun a => In a (d_syms A)) u ->
+    forall q, In q (d_states B) -> dfa_run B (Some q) u <> None.
+  Proof.
+    intros Hc Hs Hu. induction Hu as [|a u Ha Hu IH]; intros q Hq; simpl; [discriminate|].
+    rewrite <- Hs in Ha. destruct (Hc q a Hq Ha) as [t Ht]. rewrite Ht. apply IH.
+    apply (delta_in_states B HvB) in Ht. tauto.
+  Qed.
+
+  (* any complete DFA for the language has at least as many states *)
+  Theorem lower_bound_complete : complete B -> d_syms B = d_syms A -> size A <= size B.
+  Proof.
+    intros Hc Hs. apply lower_bound_gen. intros r u Hr Hu. unfold img.
+    apply (complete_run u Hc Hs (run_Some_syms u _ _ Hu)). apply (init_ok B HvB).
+  Qed.
+
+  (* any DFA at all has at least as many states as there are states accepting some word *)
+  Theorem lower_bound_live :
+    (forall r, In r (d_states A) -> exists w, dfa_acc_from A (Some r) w = true) -> size A <= size B.
+  Proof.
+    intro Hlive. apply lower_bound_gen. intros r u Hr Hu E. destruct (Hlive r Hr) as [w Hw].
+    rewrite (after_access u r w Hu), E in Hw. unfold dfa_acc_from in Hw. rewrite dfa_run_None in Hw. discriminate.
+  Qed.
+End LowerBound.
+
+Theorem struct_minimal_complete A : valid_dfa A = true -> min_struct A -> minimal_complete A.
+Proof.
+  intros HvA HA B HvB Hc Hs Hl. apply (lower_bound_complete A B HvA HvB Hl (ms_access A HA) (ms_dist A HA) Hc Hs).
+Qed.
+
+Theorem struct_minimal_partial A : valid_dfa A = true -> min_struct A -> d_partial A = true -> minimal_partial A.
+Proof.
+  intros HvA HA Hp B HvB Hs Hl. apply (lower_bound_live A B HvA HvB Hl (ms_access A HA) (ms_dist A HA)). apply (ms_live A HA Hp).
+Qed.
+
+(* ---------- minify and to_partial(minify=True) ---------- *)
+Definition lang_same (R m : dfa) : Prop := forall w, dfa_acc R w = dfa_acc m w.
+
+Lemma lang_same_L R m : lang_same R m -> L_dfa R =L L_dfa m.
+Proof. intros H w. unfold L_dfa. rewrite (H w). tauto. Qed.
+
+Definition min_result (m R : dfa) : Prop :=
+  valid_dfa R = true /\ d_syms R = d_syms m /\ lang_same R m /\ min_struct R /\ size R <= size m.
+
+(* the states minify() keeps before merging *)
+Definition kept_state (m : dfa) (q : nat) : Prop :=
+  if d_partial m then q = d_init m \/ (reachable m q /\ coaccessible m q) else reachable m q.
+
+Definition blocks_ok (m R : dfa) (P : list (list nat)) : Prop :=
+  Forall2 (fun B r => In r B) P (d_states R) /\
+  forall B q1, In B P -> In q1 B ->
+    forall q2, In q2 B <->
+      (kept_state m q2 /\ forall w, dfa_acc_from m (Some q1) w = dfa_acc_from m (Some q2) w).
+
+Theorem minify_full_ok m : valid_dfa m = true ->
+  exists R P, minify_full m = Ok (R, P) /\ min_result m R /\ (d_partial m = false -> d_partial R = false) /\
+              (P <> [] -> blocks_ok m R P).
+Proof.
+  intro Hv. unfold minify_full.
+  assert (Hk : exists K, kept_minify m = Ok K /\ goodK m K /\ (d_partial m = false -> trap_needed m K = false) /\
+                         forall q, In q K <-> kept_state m q).
+  { unfold kept_minify, kept_state. destruct (d_partial m) eqn:Ep.
+    - destruct (kept_live_good m Hv) as [K [E [H HKl]]]. exists K. split; [exact E|]. split; [exact H|].
+      split; [discriminate|exact HKl].
+    - destruct (kept_reach_good m Hv) as [K [E [H HKr]]]. exists K. split; [exact E|]. split; [exact H|].
+      split; [|exact HKr]. intros _.
+      destruct (trap_needed m K) eqn:En; [exfalso|reflexivity].
+      unfold trap_needed in En. apply existsb_exists in En. destruct En as [q [Hq En]].
+      apply existsb_exists in En. destruct En as [a [Ha En]].
+      destruct (complete_when_not_partial m Hv Ep q a (gk_states m K H q Hq) Ha) as [t Et].
+      simpl in En. rewrite Et in En.
+      assert (Ht : In t K).
+      { apply HKr. eapply reach_step; [apply HKr; exact Hq|]. apply (succs_edge m Hv). exists a. exact Et. }
+      apply memb_In in Ht. rewrite Ht in En. discriminate. }
+  destruct Hk as [K [E [HK [Hc HKs]]]]. rewrite E. simpl.
+  destruct (minify_core_ok m Hv K HK) as [R [P [E2 [V [S [Lg [St [Sz [Hp Hb]]]]]]]]].
+  exists R, P. split; [exact E2|]. split; [|split].
+  - unfold min_result. split; [exact V|]. split; [exact S|]. split; [exact Lg|]. split; [exact St|].
+    pose proof (K_length m K HK). lia.
+  - intro H. apply Hp. apply Hc. exact H.
+  - intro HP. destruct (Hb HP) as [H1 H2]. split; [exact H1|].
+    intros B q1 HB Hq1 q2. rewrite (H2 B q1 HB Hq1 q2). rewrite (HKs q2). tauto.
+Qed.
+
+Theorem minify_blocks m R P : valid_dfa m = true -> minify_full m = Ok (R, P) -> P <> [] -> blocks_ok m R P.
+Proof.
+  intros Hv E HP. destruct (minify_full_ok m Hv) as [R0 [P0 [F [_ [_ Hb]]]]]. rewrite F in E.
+  inversion E; subst R0 P0. apply Hb. exact HP.
+Qed.
+
+Theorem to_partial_min_full_ok m : valid_dfa m = true ->
+  exists R P, to_partial_min_full m = Ok (R, P) /\ min_result m R.
+Proof.
+  intro Hv. unfold to_partial_min_full. destruct (kept_live_good m Hv) as [K [E [HK _]]]. rewrite E. simpl.
+  destruct (minify_core_ok m Hv K HK) as [R [P [E2 [V [S [Lg [St [Sz [_ Hb]]]]]]]]].
+  exists R, P. split; [exact E2|]. unfold min_result. split; [exact V|]. split; [exact S|]. split; [exact Lg|].
+  split; [exact St|]. pose proof (K_length m K HK). lia.
+Qed.
+
+Theorem min_result_minimal m R : min_result m R ->
+  (d_partial R = false -> complete R /\ minimal_complete R) /\
+  (d_partial R = true -> ~ complete R /\ minimal_partial R).
+Proof.
+  intros [V [_ [_ [St _]]]]. split; intro Hp.
+  - split; [apply (complete_when_not_partial R V Hp)|apply struct_minimal_complete; assumption].
+  - split; [apply (ms_partial R St Hp)|apply struct_minimal_partial; assumption].
+Qed.
+
+Theorem minify_idempotent_size m R R' : valid_dfa m = true ->
+  minify m = Ok R -> minify R = Ok R' -> size R' = size R.
+Proof.
+  intros Hv E1 E2. unfold minify in *.
+  destruct (minify_full_ok m Hv) as [R0 [P0 [F1 [M1 _]]]]. rewrite F1 in E1. simpl in E1. inversion E1; subst R0.
+  destruct M1 as [V1 [S1 [L1 [St1 Sz1]]]].
+  destruct (minify_full_ok R V1) as [R0' [P0' [F2 [M2 [Hc2 _]]]]]. rewrite F2 in E2. simpl in E2. inversion E2; subst R0'.
+  destruct M2 as [V2 [S2 [L2 [St2 Sz2]]]].
+  apply Nat.le_antisymm; [exact Sz2|].
+  destruct (d_partial R) eqn:Ep.
+  - apply (struct_minimal_partial R V1 St1 Ep R' V2 S2 (lang_same_L _ _ L2)).
+  - apply (struct_minimal_complete R V1 St1 R' V2 (complete_when_not_partial R' V2 (Hc2 eq_refl)) S2 (lang_same_L _ _ L2)).
+Qed.
+
+Lemma minify_inv m R : valid_dfa m = true -> minify m = Ok R ->
+  min_result m R /\ (d_partial m = false -> d_partial R = false).
+Proof.
+  intros Hv E. unfold minify in E. destruct (minify_full_ok m Hv) as [R0 [P0 [F [M [Hc _]]]]].
+  rewrite F in E. simpl in E. inversion E; subst R0. split; assumption.
+Qed.
+
+Lemma to_partial_min_inv m R : valid_dfa m = true -> to_partial_min m = Ok R -> min_result m R.
+Proof.
+  intros Hv E. unfold to_partial_min in E. destruct (to_partial_min_full_ok m Hv) as [R0 [P0 [F M]]].
+  rewrite F in E. simpl in E. inversion E; subst R0. exact M.
+Qed.
+
+Lemma minify_total m : valid_dfa m = true -> exists R, minify m = Ok R.
+Proof.
+  intro Hv. destruct (minify_full_ok m Hv) as [R [P [F _]]]. exists R. unfold minify. rewrite F. reflexivity.
+Qed.
+
+Lemma to_partial_min_total m : valid_dfa m = true -> exists R, to_partial_min m = Ok R.
+Proof.
+  intro Hv. destruct (to_partial_min_full_ok m Hv) as [R [P [F _]]]. exists R. unfold to_partial_min. rewrite F. reflexivity.
+Qed.
+
+(* the flag of a result says what kind it is *)
+Lemma min_result_kind m R : min_result m R -> (d_partial R = false <-> complete R).
+Proof.
+  intro M. destruct (min_result_minimal m R M) as [H1 H2]. split.
+  - intro Hp. apply H1. exact Hp.
+  - intro Hc. destruct (d_partial R) eqn:Ep; [|reflexivity]. exfalso. apply (proj1 (H2 eq_refl)). exact Hc.
+Qed.
